@@ -270,7 +270,7 @@ def stepLine (ds : DS) (line : String) : DS × String :=
     | some (ins0, impl0) =>
       let impl := impl0.filter (fun f => !f.startsWith "fix=" && !f.startsWith "base=")
       -- the trailing history tag of an operation line is not part of the case
-      let ins := ins0.filter (fun f => !f.startsWith "h=")
+      let ins := ins0.filter (fun f => !f.startsWith "h=" && !f.startsWith "en=")
       -- the tree's repair level (R3, R4), reported by the harness with the reset line; absent = the tree as it is
       let tagged := impl0.any (fun f => f.startsWith "fix=")
       let fixR3 := !tagged || impl0.any (fun f => f == "fix=10" || f == "fix=11")
@@ -308,11 +308,25 @@ def stepLine (ds : DS) (line : String) : DS × String :=
             | none => (ds, "bad-op")
       else if !ds.ready then (ds, "bad-op")
       else
+        -- `C10.addStaticInj mac ip host mac2`: AddStaticLease, and — if the call sends a
+        -- database-store notification (it does unless it fails in its own validation) — the
+        -- DISCOVER + REQUEST of `mac2` that the harness runs inside that notification.  On HEAD
+        -- the notification comes after the table is final, so this is the sequence of three ops.
+        let (name, ins, inj) :=
+          if name == "C10.addStaticInj" then
+            ("C10.addStatic", ins.take 3, (ins.drop 3).head?.bind hexDecode)
+          else (name, ins, none)
         match runP (pOp name) ins, implOut impl with
         | some op, some (r, o) =>
           if (match op.rawHost? with | some h => !ds.tab.has h | none => false) then (ds, "bad-op")
           else
-            let (st1, mr) := step ds.tab.oracle ds.conf ds.st op
+            let (st0, mr) := step ds.tab.oracle ds.conf ds.st op
+            let st1 := match inj with
+              | some mac2 =>
+                if mr.err == "gateway" || mr.err == "badMAC" || mr.err == "hostname" then st0 else
+                let (sa, offer) := step ds.tab.oracle ds.conf st0 (.discover mac2)
+                if offer.rc == 1 then (step ds.tab.oracle ds.conf sa (.request mac2 ds.conf.sid true offer.yi 0 [])).1 else sa
+              | none => st0
             -- `writeDB` sorts with an unstable sort: if the file holds another sorted
             -- permutation of the same records, the model takes that order (`Op.reorder`,
             -- which checks that it is one)
